@@ -148,9 +148,11 @@ def classify(desc, kind, got, want, data):
     """Mechanism key of a mismatch.  The two listed findings are recognised by the exact shape of the witness."""
     if got is not None and want is not None:
         extra, missing = got - want, want - got
-        if desc["form"] == "frame" and kind == "cop" and extra and all(g.endswith("*|") for g in extra) and \
-                {g[:-2].rstrip() for g in extra} == missing:
-            return "frame-suffix-kept-in-copyright"
+        if desc["form"] == "frame" and kind == "cop" and extra and all(g.endswith("*|") for g in extra):
+            stripped = {g[:-2].rstrip() for g in extra}
+            # (a value may be authored twice in one text, once framed and once not: then nothing is "missing")
+            if stripped <= want and missing <= stripped:
+                return "frame-suffix-kept-in-copyright"
         if desc["hostile"] == "mirror-tail" and kind == "con" and missing and desc.get("mirror"):
             m = desc["mirror"]
             shortened = {w[: -len(m)].rstrip() for w in missing if w.endswith(m)}
